@@ -370,6 +370,8 @@ Bases ==
     B("capability", "capability.data", Un(J(<<F("CAPABILITY"), Caps3>>))),
     B("enable", "enable.one",    Un(J(<<F("ENABLED"), V("cap", "METADATA")>>))),
     B("enable", "enable.none",   Un(F("ENABLED"))),
+    \* the same in a second session on the connection (LOGIN .. UNAUTHENTICATE .. ENABLE): what a session leaves behind
+    B("enable2", "enable2.one",  Un(J(<<F("ENABLED"), V("cap", "METADATA")>>))),
     B("login", "login.cap",      Tgd(StatusOf("OK", J(<<F("CAPABILITY"), Caps2>>), "TXT"))),
     BS("login", "login.no", "NO", Tgd(StatusOf("NO", F("AUTHENTICATIONFAILED"), "TXT"))),
   \* LIST (LSUB is not parsed by this client: excluded)
@@ -658,7 +660,7 @@ BasesDeliver == (phase = "done" /\ mut[1].op = "none") => (cls.c = "D" /\ Bases[
 UsedTokens  == UNION {{Bases[i].toks[j].t : j \in 1..Len(Bases[i].toks)} : i \in 1..NB}
 UsedClasses == UNION {{Bases[i].toks[j].s : j \in 1..Len(Bases[i].toks)} : i \in 1..NB}
 RequiredKinds ==
-  {"greeting", "unsol", "bare", "tagged", "select", "capability", "enable", "login", "list", "liststatus", "status",
+  {"greeting", "unsol", "bare", "tagged", "select", "capability", "enable", "enable2", "login", "list", "liststatus", "status",
    "search", "uidsearch", "esearch", "uidesearch", "sort", "uidsort", "thread", "getquota", "getquotaroot",
    "getmetadata", "namespace", "fetch", "uidfetch", "store", "expunge", "copy", "move", "append", "appendsync"}
 RequiredTokens ==
